@@ -322,8 +322,9 @@ func runBytes(op string) (out string) {
 			break // the connection is gone
 		}
 	}
+	mainOK := len(res) == nreq && nreq > 0 && !strings.Contains(res[len(res)-1], "closed")
 	// a SELECT prepared on one connection and executed on another is still a SELECT: never overridden
-	if len(res) == nreq && nreq > 0 && len(unsupported) > 0 && !strings.Contains(res[len(res)-1], "closed") {
+	if mainOK && len(unsupported) > 0 {
 		if cl2, err := env.Dial(version, comp); err == nil {
 			ex := &message.Execute{QueryId: pid(stmtSelect), ResultMetadataId: pid(stmtSelect + "m"), Options: &message.QueryOptions{Consistency: primitive.ConsistencyLevel(unsupported[0])}}
 			raw, err := cl2.Encode(77, ex, nil)
@@ -353,7 +354,7 @@ func runBytes(op string) (out string) {
 	}
 	// a retried write must carry the bytes of its first attempt, whatever went through the connection in between:
 	// two writes in flight, the first answered with a write timeout of the batch log (retried once on the same host)
-	if len(res) == nreq && nreq > 0 && !strings.Contains(res[len(res)-1], "closed") {
+	if mainOK {
 		mu.Lock()
 		holding = true
 		mu.Unlock()
